@@ -555,6 +555,7 @@ func (sp *Specs) ParseFile(path, pkgPath string) error {
 					sw.Pkgs = append(sw.Pkgs, t)
 				}
 			}
+			sw.PkgPath = pkgPath
 			if sw.Kind == "" || len(sw.Pkgs) == 0 || len(sw.Props) == 0 {
 				return fmt.Errorf("%s:%d: sweep <kind> [Cxx] <package path>...", path, l.line)
 			}
